@@ -377,10 +377,11 @@ template<class T, class HF, class KT, class VT> struct Runner
          note_shown(i);
          if ((had)&&(tr.hasShown)&&(ok == tr.shownKey)&&(ov != tr.shownVal))
          {
-            // same key, other value: only a value that some table now holds for that key is acceptable
+            // same key, other value: only a value that some table holds (or held just before) for that key is acceptable
             bool now = false;
             for (int t=0; t<NT; t++) {const int j = ideal_find(ideal[t], tr.shownKey); if ((j >= 0)&&(ideal[t][j].second == tr.shownVal)) now = true;}
-            if (!now) {fail("a mutation changed the value an iterator shows for its unchanged key to a value that no table holds", n, opname); return;}
+            for (int t=0; t<NT; t++) {const int j = ideal_find(before[t], tr.shownKey); if ((j >= 0)&&(before[t][j].second == tr.shownVal)) now = true;}   // eg Clear() re-saving the pair of the entry under the cookie
+            if (!now) {fail("a mutation changed the value an iterator shows for its unchanged key to a value that no table holds or held", n, opname); return;}
          }
          if ((had == tr.hasShown)&&((!had)||(ok == tr.shownKey))) continue;
          if (!tr.hasShown) {fail("a mutation made an iterator lose its current pair", n, opname); return;}
